@@ -131,6 +131,9 @@ def run(chk: common.Check):
     from mwlib.parser import expander  # noqa: F401
 
     t = gen_tables.gen_c06()
+    from . import nest_corr
+
+    tn = nest_corr.gen_lean()
     res = common.lean_prove(PROP_MODULES, tier)
     trusted = [
         "Lean 4 kernel; axioms propext, Quot.sound, Classical.choice only (audited per theorem on this run)",
@@ -140,6 +143,10 @@ def run(chk: common.Check):
         "the bodies of the passes are not modelled: completion and fixed points are checked by running every pass directly on the "
         "generated input space (documents, trigger documents, fuzz), each call in a guarded child process",
         "tree model (Model/Tree.lean) for the size-decrease theorems, tied by the C05 correspondence",
+        "hand-written models of two of the three fixed-point passes: fix_paragraphs (Model/Passes.lean, tied by the C05 primitive "
+        "correspondence) and fix_nesting in its default loose mode (Model/Nesting.lean: search order, visible-ancestor rule, the cut "
+        "in three), parametric in the class tables which are regenerated from a live TreeCleaner (Gen/Nesting.lean) and tied by a "
+        "correspondence run of _fix_nesting / fix_nesting on trees with nesting violations; remove_breaking_returns is not modelled",
     ]
     chk.proof_coverage(res, trusted)
     n = 12000 if tier == "thorough" else 1500
@@ -154,7 +161,28 @@ def run(chk: common.Check):
     for item, kind, detail in c1:
         text = source_text(*item) if item else None
         bad.append({"kind": item[0] if item else None, "seed": item[1] if item else None, "text": text, "pass": "?", "why": f"{kind}: {detail}"})
+    # fix_nesting: model vs the real pass (one call and the whole loop) on trees with nesting violations
+    nn = 16000 if tier == "thorough" else 2400
+    nitems = [chk.seed * 10_000_000 + 3_500_000 + i for i in range(nn)]
+    r2, c2 = guard.guarded_run(str(chk.mkscratch()), "harness.nest_corr:worker", nitems, nproc=16, hard_timeout=120)
+    ndiffs, nhist = [], Counter()
+    for d, v, h in r2:
+        ndiffs += d
+        nhist.update(h)
+        for x in v:
+            bad.append({"kind": "nest", "seed": None, "text": x["text"], "pass": "fix_nesting", "why": x["why"]})
+    for item, kind, detail in c2:
+        import random as _r
+
+        from . import clean_common as _cc
+        rng = _r.Random(item)
+        bad.append({"kind": "nest", "seed": item, "text": nest_corr.nest_doc(rng) if item % 4 else _cc.fuzz_text(rng), "pass": "fix_nesting",
+                    "why": f"{kind}: {detail}"})
     chk.coverage.update({
+        "traces_validated_against_impl": sum(v for k, v in nhist.items() if k.startswith("fix_nesting") or k.startswith("_fix_nesting (")),
+        "correspondence_differences": len(ndiffs),
+        "fix_nesting_histogram": dict(nhist),
+        "fix_nesting_tables": tn,
         "evaluations": len(items),
         "distinct_nontrivial": hist.get("pass-calls", 0),
         "rule": "every pass of TreeCleaner.cleaner_methods called directly, in order, on the advanced tree of: documents of the C02 grammar; "
@@ -174,8 +202,13 @@ def run(chk: common.Check):
         chk.violation(f"C06 violated: pass {b['pass']} {b['why']}", b, sig={"pass": b["pass"], "why": b["why"][:30]})
     if bad:
         return
+    broken = []
     if not res.ok:
-        chk.violation("C06 is no longer shown to hold: lean broke (" + ", ".join(res.failed_targets or ["axioms/forbidden"]) + "); "
-                      "running every pass found no failing input",
-                      {"broken": [{"kind": "lean", "failed": res.failed_targets, "unknown_called_names": t["unknown"],
-                                   "log_tail": res.log[-1500:]}], "theorems": PROP_MODULES}, no_input=True)
+        broken.append({"kind": "lean", "failed": res.failed_targets, "unknown_called_names": t["unknown"], "bad_axioms": res.bad_axioms,
+                       "forbidden": res.forbidden_hits, "log_tail": res.log[-1500:]})
+    if ndiffs:
+        broken.append({"kind": "correspondence(fix_nesting)", "count": len(ndiffs), "first": ndiffs[0]})
+    if broken:
+        chk.violation("C06 is no longer shown to hold: " + ", ".join(b["kind"] for b in broken) + " broke ("
+                      + ", ".join(res.failed_targets or []) + "); running every pass found no failing input",
+                      {"broken": broken, "theorems": PROP_MODULES}, no_input=True)
